@@ -368,6 +368,13 @@ static void sys_exit(struct task *t, struct user_regs_struct *r)
     if (si < 0 || !t->k)
         return;
     long long ret = (long long)r->rax;
+    if (!t->injected && (ret == -512 || ret == -513 || ret == -514 || ret == -516)) {
+        /* ERESTART*: the call was interrupted by a signal stop and will be re-issued by the kernel
+         * (the program never sees this value): not a completed call, it keeps its number k */
+        t->cnt[si]--;
+        fprintf(LOG, "{\"ev\":\"restart\",\"task\":%d,\"nr\":\"%s\",\"k\":%d}\n", t->idx, SYS[si].name, t->k);
+        return;
+    }
     if (t->injected) {
         r->rax = (unsigned long long)t->forced;
         if (ptrace(PTRACE_SETREGS, t->pid, 0, r) < 0)
